@@ -701,29 +701,24 @@ def _kh_labels(case, text, labels: Set[str]) -> None:
             labels.add('addr-only-hit')
 
 
-def run_kh_reference(case) -> CaseResult:
-    lines = case['lines']
-    host, addr, port = case['host'], case['addr'], case['port']
-    labels: Set[str] = set()
-    text = render_file(lines, render_kh_line, case.get('nl', True))
-    _kh_labels(case, text, labels)
+def _check_kh(lines, text, host, addr, port, via, labels: Set[str]) -> bool:
+    """One lookup compared with the reference; returns whether any line was
+    selected"""
 
-    got = _guarded(lambda t: kh_query(t, host, addr, port,
-                                      case.get('via', 'bytes')),
+    got = _guarded(lambda t: kh_query(t, host, addr, port, via),
                    lines, render_kh_line, 'match_known_hosts')
     got_flat = _flat(got)
     want, rlabels = kh_reference(text, host, addr, port)
-    labels |= rlabels
     want_flat = {_strip_lineno(w) for w in want}
 
     if len(want_flat) == 1:
-        labels -= set(AMBIGUITIES)
+        rlabels -= set(AMBIGUITIES)
+
+    labels |= rlabels
 
     if got_flat not in want_flat:
         # is it the non-ASCII-comment defect?  (the comment "is not used")
-        na = [ln for ln in lines if _non_ascii(ln)]
-
-        if na:
+        if any(_non_ascii(ln) for ln in lines):
             rest = [ln if not _non_ascii(ln) else
                     {'kind': 'comment', 'text': '#'} for ln in lines]
             alt, _ = kh_reference(render_file(rest, render_kh_line),
@@ -745,8 +740,25 @@ def run_kh_reference(case) -> CaseResult:
                ' | '.join(str(sorted(w)) for w in want_flat), text),
             'kh-selection')
 
-    selected = bool(got_flat)
+    return bool(got_flat)
+
+
+def run_kh_reference(case) -> CaseResult:
+    lines = case['lines']
+    host, addr, port = case['host'], case['addr'], case['port']
+    via = case.get('via', 'bytes')
+    labels: Set[str] = set()
+    text = render_file(lines, render_kh_line, case.get('nl', True))
+    _kh_labels(case, text, labels)
+    selected = _check_kh(lines, text, host, addr, port, via, labels)
     labels.add('selected' if selected else 'none-selected')
+
+    # further lookups in the same file (generation costs 20x a lookup)
+    for host2, addr2, port2 in case.get('more', ()):
+        extra: Set[str] = set()
+        _check_kh(lines, text, host2, addr2, port2, via, extra)
+        labels |= extra & (set(AMBIGUITIES) | {'port-direct',
+                                               'port-fallback'})
 
     if port:
         labels.add('port-query')
@@ -1216,8 +1228,6 @@ def run_ak_reference(case) -> CaseResult:
     labels: Set[str] = set()
     text = render_file(lines, render_ak_line, case.get('nl', True))
     entries = ak_parse(text)
-    key = _query_key(q['key'])
-    principals = q['principals'] if q['ca'] else None
 
     for ln in lines:
         if ln['kind'] != 'key':
@@ -1251,28 +1261,20 @@ def run_ak_reference(case) -> CaseResult:
         if ln.get('c') and ('"' in ln['c'] or ',' in ln['c']):
             labels.add('quote-in-comment')
 
-    def load_and_validate(t):
+    def load(t):
         try:
-            ak = asyncssh.import_authorized_keys(t)
+            return asyncssh.import_authorized_keys(t)
         except ValueError as exc:
             if str(exc) == 'No valid entries found':
-                return 'no-valid-entries'
+                return None
             raise
 
-        res = ak.validate(key, q['host'], q['addr'], principals, q['ca'])
-        return None if res is None else _norm_options(res)
+    ak = _guarded(load, lines, render_ak_line, 'import_authorized_keys')
 
-    got = _guarded(load_and_validate, lines, render_ak_line,
-                   'import_authorized_keys/validate')
-    want, rlabels = ak_reference(entries, q['key'], q['host'], q['addr'],
-                                 principals, q['ca'])
-    labels |= rlabels
-
-    if got == 'no-valid-entries':
+    if ak is None:
         # load() rejects a file without a single usable entry (undocumented
         # but harmless: nothing could be authorised by it)
         labels.add('no-valid-entries')
-        got = None
 
         if entries and not ak_parse(text, skip_non_ascii=True):
             raise Violation(
@@ -1287,15 +1289,29 @@ def run_ak_reference(case) -> CaseResult:
                             'a file with %d parseable key lines\n%s' %
                             (len(entries), text), 'ak-no-valid-entries')
 
-    want_opts = None if want is None else want[1]
+    def check(q, labels) -> bool:
+        principals = q['principals'] if q['ca'] else None
+        got = None
 
-    if got != want_opts:
+        if ak is not None:
+            res = ak.validate(_query_key(q['key']), q['host'], q['addr'],
+                              principals, q['ca'])
+            got = None if res is None else _norm_options(res)
+
+        want, rlabels = ak_reference(entries, q['key'], q['host'], q['addr'],
+                                     principals, q['ca'])
+        labels |= rlabels
+        want_opts = None if want is None else want[1]
+
+        if got == want_opts:
+            return bool(want)
+
         def alt(**kw):
             a, _ = ak_reference(ak_parse(text, **kw), q['key'], q['host'],
                                 q['addr'], principals, q['ca'])
             return None if a is None else a[1]
 
-        if 'keyword-case' in labels and got == alt(case_insensitive=False):
+        if kwcase and got == alt(case_insensitive=False):
             raise Violation(
                 'option-keyword-case',
                 'sshd(8): "option keywords are case-insensitive"; asyncssh '
@@ -1317,13 +1333,20 @@ def run_ak_reference(case) -> CaseResult:
                         % (q, got, want and want[0], want_opts, text),
                         'ak-selection')
 
-    labels.add('accepted' if want else 'rejected')
+    kwcase = 'keyword-case' in labels
+    accepted = check(q, labels)
+    labels.add('accepted' if accepted else 'rejected')
     labels.add('ca-query' if q['ca'] else 'user-query')
+
+    for q2 in case.get('more', ()):
+        extra: Set[str] = set()
+        check(q2, extra)
+        labels |= extra & {'later-line-wins'}
 
     if not text.isascii():
         labels.add('non-ascii-comment')
 
-    nontrivial = bool(want) and bool(
+    nontrivial = accepted and bool(
         labels & {'damaged', 'from-reject', 'principals-reject',
                   'from-match', 'principals-match'})
     return CaseResult(sorted(labels), nontrivial)
@@ -1568,7 +1591,16 @@ def kh_reference_strategy(tier: str):
         lines = draw(st.lists(kh_line(host, addr, port, allow_imp=allow_imp,
                                       non_ascii=non_ascii),
                               min_size=1, max_size=max_lines))
+        # the same file asked about related targets: other port / no port,
+        # address only, name only, an unrelated name
+        variants = [[host, addr, None], [host, addr, 2222], [host, '', port],
+                    [addr or host, addr, port], [host, addr, 4022],
+                    [draw(st.sampled_from(NAMES)),
+                     draw(st.sampled_from(ADDRS)), port]]
+        more = draw(st.lists(st.sampled_from(variants), max_size=3,
+                             unique_by=str))
         return {'lines': lines, 'host': host, 'addr': addr, 'port': port,
+                'more': more,
                 'nl': draw(st.sampled_from([True, True, False])),
                 'via': draw(st.sampled_from(['bytes', 'bytes', 'object']))}
 
@@ -1781,7 +1813,22 @@ def ak_reference_strategy(tier: str):
         kwcase = quirk == 23
         lines = draw(st.lists(ak_line(q, allow_imp, non_ascii, kwcase),
                               min_size=1, max_size=max_lines))
-        return {'lines': lines, 'q': q,
+        # the same file asked on behalf of related clients
+        other = draw(st.sampled_from(ADDRS))
+        plist = draw(st.lists(st.sampled_from(PRINCIPALS), max_size=3,
+                              unique=True))
+        variants = [dict(q, ca=not ca, principals=None if ca else plist),
+                    dict(q, host=draw(st.sampled_from(NAMES))),
+                    dict(q, addr=other),
+                    dict(q, host=other, addr=other),
+                    dict(q, key=draw(st.integers(0, NKEYS - 1)))]
+
+        if ca:
+            variants.append(dict(q, principals=plist))
+
+        more = draw(st.lists(st.sampled_from(variants), max_size=3,
+                             unique_by=str))
+        return {'lines': lines, 'q': q, 'more': more,
                 'nl': draw(st.sampled_from([True, True, False]))}
 
     return build()
